@@ -1855,7 +1855,9 @@ def sequence_to_pianoroll(
 
   velocities_roll = np.zeros_like(roll, dtype=np.float32)
 
-  for note in sorted(sequence.notes, key=lambda n: n.start_time):
+  # Velocity breaks ties between notes that start together, so that what is
+  # painted last does not depend on the order in which the notes are stored.
+  for note in sorted(sequence.notes, key=lambda n: (n.start_time, n.velocity)):
     if note.pitch < min_pitch or note.pitch > max_pitch:
       logging.warn('Skipping out of range pitch: %d', note.pitch)
       continue
